@@ -806,6 +806,11 @@ pub fn build(plan: &Plan) -> Model {
                                     params.push(sp);
                                 }
                                 st.long.clear();
+                                if let Act::Program(pg) = &c.act {
+                                    if let Some(k) = pg.pull_params {
+                                        params.truncate(k as usize);
+                                    }
+                                }
                                 m.routing = Routing::Exact(Some(Cb::Execute {
                                     stmt: *stmt,
                                     params,
